@@ -22,11 +22,13 @@ ASSUMPTIONS = [
     'integers are unbounded; division by zero is outside the statement (SQLite / MySQL give NULL, PostgreSQL raises, Python raises)',
     'Oracle: structure and text only (its semantics, \'\' = NULL, is not modelled); CockroachDB: not covered',
     'string slices / indexes are outside the C02 theorems (proved in C25); the search compares them across dialects with C25\'s machinery (tools/props/c25.py, tools/sqlsem.py)',
+    'ordering: NULL sorts first in ascending order on SQLite and MySQL, last on PostgreSQL (documentation); GROUP BY result order is unspecified (multisets)',
     'JSON / array operators, date arithmetic, row values per dialect: not covered',
 ]
 RULE = ('structural + text: enumerated depth<=2 (sampled in the quick tier), sampled depth-3 and seeded random typed expressions, each translated and rendered on 4 '
         'providers; LIMIT: query[k:] for k in 0..n+1 on 4 providers (text) and on real SQLite (rows); search: each expression on a fixed table evaluated under the '
-        'PostgreSQL / MySQL models from the AST the real translator produced for that provider, compared with the SQLite reading; non-trivial = expression with an '
+        'PostgreSQL / MySQL models from the AST the real translator produced for that provider, compared with the SQLite reading; plus 40 aggregate and 40 ordered queries (400 each when something broke / thorough) whose decoded value / ordered id list under the PostgreSQL and MySQL '
+        'models is compared with the SQLite reading; non-trivial = expression with an '
         'operator; distinct = distinct (provider, query text)')
 
 QUICK = dict(n_random=160, n_enum=200, n_depth3=40, text_random=120, text_enum=160, search_random=150, search_enum=150, search_rows=6)
@@ -504,7 +506,7 @@ def replay_expr(ctx, data):
 
 LEVEL_TEXT = ('Machine-checked proof (Coq 8.16.1) that on the C01 expression grammar the SQL generated for SQLite, PostgreSQL and MySQL computes the same answer on any two '
               'of them (selected values, kept rows, whole result lists) under the per-dialect semantics, as a corollary of the C01 induction proof; and that each dialect\'s '
-              'way of writing "no limit" with an offset returns exactly the rows after the offset; on the explicit complement of five per-dialect defect classes refuted by '
+              'way of writing "no limit" with an offset returns exactly the rows after the offset; on the explicit complement of the recorded per-dialect defect classes refuted by '
               'witnesses (MySQL `/` and length(), PostgreSQL least / greatest, NOT coalesce(x, true), CASE / coalesce over boolean and integer). The translation model and a '
               'text-rendering model of the four builders are compared with the real translator / builders on every run. The agreement is also proved for queries with '
               'attribute paths through to-one references (C02_agree_join_rows) and with conditions over a to-many collection - EXISTS / IN / NOT IN / COUNT subqueries '
